@@ -159,6 +159,13 @@ def iamEndpoint (tlds l2s : List Bytes) (assigned : Bool) (c : Config) (endpoint
     | _ => "refused-endpoint"
   | _ => "refused-endpoint"
 
+/-- one outbound call of the IAM client on a started node. `checked` = the method (or the inner method it delegates to)
+    validates its endpoint unconditionally (regenerated inventory); `needsSubject` = after the check the call stops for a
+    reason unrelated to the endpoint (AccessToken with DPoP for an unknown subject) -/
+def iamCall (tlds l2s : List Bytes) (assigned : Bool) (c : Config) (checked needsSubject : Bool) (endpoint : Bytes) : String :=
+  let r := iamEndpoint tlds l2s (assigned && checked) c endpoint
+  if needsSubject && r ≠ "refused-endpoint" then "nosend" else r
+
 /-! ### remote JSON-LD contexts: `filteredDocumentLoader` (jsonld/ldutils.go), installed only in strict mode -/
 
 /-- does a context URL get past the filter (and so may be fetched)? strict: only a URL that IS an entry of the allow-list
